@@ -67,6 +67,15 @@ func LAY9(e *Env) {
 						if !isC || !eq {
 							continue
 						}
+						if n, isInt := ssau.ConstInt(k); isInt && n == 0 {
+							// len(scalarType) == 0
+							if cl, isCall := x.(*ssa.Call); isCall && ssau.Builtin(cl) == "len" {
+								if _, isPhi := StripConv(cl.Common().Args[0]).(*ssa.Phi); isPhi {
+									ok = true
+								}
+							}
+							continue
+						}
 						if s, isS := ConstStr(k); !isS || s != "" {
 							continue
 						}
